@@ -37,11 +37,65 @@ def shape1(s):
     return {"assign": "=", "loop": "O", "goto": "G", "label": "L"}.get(k, "?")
 
 
-def check_body(body):
+NOTE_FN = {"name": "note", "params": [("v", I32, "val")], "ret": None, "body": [], "ret_expr": None, "effectful": True, "index": 0}
+
+
+_fresh = [0]
+
+
+def substitute(body, how):
+    """The same statement tree with every plain assignment replaced by another kind of plain statement (how = 'call': a call
+    statement, 'print': a builtin call, 'var': a declaration): the placement rules speak of statements, not of assignments."""
+    out = []
+    for k, st in enumerate(body):
+        if st[0] == "assign":
+            if how == "call":
+                out.append(("callstmt", ("call", None, "note", [X])))
+            elif how == "print":
+                out.append(("print", [X, ("str", None, b"\n")]))
+            else:
+                _fresh[0] += 1
+                out.append(("var", "d%d" % _fresh[0], I32, X))
+        elif st[0] == "block":
+            out.append(("block", substitute(st[1], how)))
+        elif st[0] == "if":
+            def br(b):
+                if b is None:
+                    return None
+                return substitute([b], how)[0]
+            out.append(("if", st[1], br(st[2]), br(st[3])))
+        else:
+            out.append(st)
+    return out
+
+
+def check_body(body, how=None, bad_condition=False):
     body = gen_scope.unique_labels(gen_scope.renumber_bumps(body))
     full = list(body) + [("label", "l")]
-    prog = gen_scope.program_with_main(full)
     codes, nlints = models.placement_model(full)
+    extra = None
+    if how:
+        full = substitute(full, how)
+        extra = [NOTE_FN] if how == "call" else None
+    if bad_condition:
+        # the first `if` gets a condition with an error of its own (an undefined variable): every placement error
+        # must still be reported next to E402
+        done = [False]
+
+        def spoil(stmts):
+            out = []
+            for st in stmts:
+                if st[0] == "if" and not done[0]:
+                    done[0] = True
+                    st = ("if", ("==", ("read", I32, ("undefined_variable", ())), X), st[2], st[3])
+                elif st[0] == "block":
+                    st = ("block", spoil(st[1]))
+                out.append(st)
+            return out
+        full = spoil(full)
+        if done[0]:
+            codes = set(codes) | {402}
+    prog = gen_scope.program_with_main(full, extra_funcs=extra)
     src = gen_prog.to_source(prog)
     kind, r = compile_src(src, want_ir=not codes)
     replay = {"source": src, "expected_codes": sorted(codes), "expected_L1800": nlints}
@@ -90,6 +144,19 @@ def check_body(body):
     return {"verdict": HELD, "cov": cov, "nt": ("acc%d:" % nlints if accepted else "rej%s:" % sorted(codes)) + shape(body)}
 
 
+def st_has(body, kind):
+    for st in body:
+        if st[0] == kind:
+            return True
+        if st[0] == "block" and st_has(st[1], kind):
+            return True
+        if st[0] == "if":
+            for b in (st[2], st[3]):
+                if b is not None and st_has([b], kind):
+                    return True
+    return False
+
+
 def run_case(case):
     kind = case[0]
     if kind == "enum":
@@ -105,6 +172,16 @@ def run_case(case):
                 continue
             res = check_body(b)
             res.setdefault("cov", {})["enum_size_%d" % size] = 1
+            if (i // n) % 4 == 1:
+                how = ("call", "print", "var")[(i // n // 4) % 3]
+                if any(st_has(b, "assign") for _ in [0]):
+                    res2 = check_body(b, how=how)
+                    res2.setdefault("cov", {})["substituted_" + how] = 1
+                    out.append(res2)
+            if (i // n) % 4 == 2 and st_has(b, "if"):
+                res3 = check_body(b, bad_condition=True)
+                res3.setdefault("cov", {})["bad_condition_variants"] = 1
+                out.append(res3)
             if i % 499 == 1 and res["verdict"] == HELD:
                 res["sample"] = {"body": gen_prog.to_source(gen_scope.program_with_main(b + [("label", "l")])),
                                  "model": [sorted(models.placement_model(b)[0]), models.placement_model(b)[1]]}
